@@ -256,6 +256,8 @@ def merge(chk, tier, seed, jobs, outdir, wall, failures):
         else:
             new.append(v)
     rdir = os.path.join(VERIF, "replays", chk.id)
+    if not os.environ.get("VERIF_REPLAY_KEEP"):
+        shutil.rmtree(rdir, ignore_errors=True)
     lines = []
     if new or matched:
         os.makedirs(rdir, exist_ok=True)
